@@ -212,6 +212,20 @@ def check_exclusion(mode_name, seq, fs, res):
             res.add_violation(ID, run.viol('inclusion-changed-by-exclusion', {'mode': mode_name, 'pattern': text, 'flags': fs,
                                            'name': c3.witness, 'how': how}, {'included': c3.accs[1]}, {'included': c3.accs[0]}))
     want = [r.pattern for r in impl.wcregexp(c)._include]
+    # translate() hands out the same exclusion regexes as the matcher uses
+    try:
+        tr = mod.translate('*', flags=fl, exclude=text)[1]
+    except Exception:  # noqa: BLE001
+        tr = None
+    if tr is not None and list(tr) != [r.pattern for r in impl.wcregexp(a)._exclude]:
+        from wcmatch import _wcmatch
+        import re as _re
+        e1 = _wcmatch.WcRegexp(tuple(_re.compile(x) for x in tr))
+        e2 = _wcmatch.WcRegexp(tuple(impl.wcregexp(a)._exclude))
+        c4 = langcmp.equal(e1, e2, False)
+        if c4.witness is not None:
+            res.add_violation(ID, run.viol('exclusion-dotmatch', {'mode': mode_name, 'pattern': text, 'flags': fs, 'name': c4.witness,
+                                                                  'how': 'translate-exclude='}, {'excluded': c4.accs[1]}, {'excluded': c4.accs[0]}))
     for how, mm in (('exclude=', a), ('inline', b)):
         got = [r.pattern for r in impl.wcregexp(mm)._exclude]
         if got == want:
@@ -289,6 +303,34 @@ def plan(tier, seed):
     }
 
 
+UNTERMINATED = [('*(a', '*\\(a'), ('?(a', '?\\(a'), ('*(', '*\\('), ('?(a|b', '?\\(a\\|b'), ('*(a*', '*\\(a*'), ('?(?', '?\\(?'),
+                ('d/*(a', 'd/*\\(a'), ('**/?(a', '**/?\\(a'), ('*(a/b', '*\\(a/b'), ('+(a', '+\\(a'), ('@(a', '@\\(a')]
+
+
+def check_unterminated(res):
+    """A group opener that is never closed is ordinary text; a `*` or `?` in front of it is an ordinary wildcard - with the
+    hidden-name discipline of one: the pattern means what its escaped spelling means (all names)."""
+    for p1, p2 in UNTERMINATED:
+        for mode_name, mod, fsets in (('fn', F, ('E', 'DE')), ('glob', G, ('E', 'GE', 'GDE', 'GZE'))):
+            if mode_name == 'fn' and '/' in p1:
+                continue
+            for fs in fsets:
+                fl = gflags(fs) if mode_name == 'glob' else fflags(fs)
+                res.n['evaluations'] += 1
+                try:
+                    c = langcmp.equal(mod.compile(p1, flags=fl), mod.compile(p2, flags=fl), False)
+                except Exception:  # noqa: BLE001
+                    res.notes['compile_exception'] += 1
+                    continue
+                res.n['states'] += c.states
+                res.n['transitions'] += c.transitions
+                res.n['distinct_nontrivial'] += 1
+                if c.witness is not None:
+                    res.add_violation(ID, run.viol('unterminated-group-wildcard', {'mode': mode_name, 'pattern': p1, 'pattern2': p2, 'flags': fs,
+                                                                                    'name': c.witness}, {'match': c.accs[1]}, {'match': c.accs[0]}))
+    res.samples.append({'unterminated': '*(a', 'means': '*\\(a'})
+
+
 PAIR_SECOND = ['!(a)', '*', '@(*|.)']
 
 
@@ -325,6 +367,8 @@ def run_chunk(chunk):
     _k, mode_name, budget, flagsets, depth, max_alts, sh, ns, residue = chunk
     res = run.ChunkResult()
     if mode_name == 'glob-pairs':
+        if sh == 0:
+            check_unterminated(res)
         return _pairs(res, sh, ns, flagsets)
     inner, top = menus()
     lv = top if mode_name == 'glob' else inner
@@ -371,6 +415,12 @@ def replay(v):
             kept = match(inp['name'], ['**' if inp['mode'] == 'glob' else '*', '!' + p], flags=fl | mod.NEGATE | mod.DOTMATCH | G.GLOBSTAR * (inp['mode'] == 'glob'))
         alone = match(inp['name'], p, flags=fl | mod.DOTMATCH)
         return {'violates': kept == alone, 'observed': {'kept': kept, 'matches_alone_with_DOTMATCH': alone}}
+    if v['kind'] == 'unterminated-group-wildcard':
+        mod = G if inp['mode'] == 'glob' else F
+        fl = gflags(inp['flags']) if inp['mode'] == 'glob' else fflags(inp['flags'])
+        a = mod.compile(p, flags=fl).match(inp['name'])
+        b = mod.compile(inp['pattern2'], flags=fl).match(inp['name'])
+        return {'violates': a != b, 'observed': {'match': a, 'escaped_spelling': b}}
     if v['kind'] == 'inclusion-changed-by-exclusion':
         mod = G if inp['mode'] == 'glob' else F
         fl = gflags(inp['flags']) if inp['mode'] == 'glob' else fflags(inp['flags'])
